@@ -46,6 +46,7 @@ EXPLANATION = (
     "(Z7) = C17.Y5: each location is served with its own timeout. "
     "(Z8) = C13.E2. (Z9) = C15.X2: the front end's request timer is off while the handler runs. (Z10) GeminiResponse.charset matches the parameter name case-insensitively."
     ' (Z11) the charset parameter is found at any position (GeminiResponse.charset and the client protocol). (Z12) = C06.R10: no method of GeminiResponse rewrites status / meta / body. (Z13) = C13.E8: a location without a timeout key still gets a numeric timeout.'
+    " (Z14) stateless client: concurrent upstream fetches cannot close each other's connection."
 )
 
 PROXY = "server.proxy:ProxyHandler"
@@ -415,5 +416,8 @@ def run(chk: Check) -> None:
     from .common import response_fields_immutable
 
     response_fields_immutable(chk, "Z12", "the relay sees a body that is no longer the one the client parsed (bytes decoded behind its back are re-encoded as UTF-8 under the unchanged meta)")
+    from .common import client_stateless
+
+    client_stateless(chk, "Z14", "concurrent upstream fetches of one location share the client: one finishing closes the other's connection and a truncated body is relayed as 20 instead of 43")
     chk.trusted = ["CPython ast parser", "engine CFG / abstract evaluator", "str.encode(X) inverts bytes.decode(X) for the charset the upstream declared", "C01.W3 sanitises whatever header the upstream sent"]
     chk.assumptions = ["byte-exact relay for codecs whose decode/encode is not a bijection (BOMs, stateful encodings) is not decided"]
